@@ -281,6 +281,23 @@ def check_C11(chk, tier, seed):
         hops = r.shuffle([0, 1, 2, 0xffffffff, 0x7fffffff, 0x80000000, r.below(1 << 32), r.below(1 << 32)])[:n]
         toks = render(seq, hops, r, split=True)
         cases.append((line(toks), toks, True))
+    # identifiers that a lossy index would confuse: equal modulo 2^k (k = 8 ... 31), modulo 1000, 1009, 65521, byte-swapped
+    # twins, ids differing in one bit; two or three requests in flight, answered in every order
+    base = [5, 0x01020304, 0xfffffffe]
+    twins = []
+    for b in base:
+        for k in list(range(8, 32)):
+            twins.append((b, (b + (1 << k)) & 0xffffffff))
+        for m in (1000, 1009, 65521, 1 << 16):
+            twins.append((b, (b + 3 * m) & 0xffffffff))
+        twins.append((b, int.from_bytes(b.to_bytes(4, "big"), "little")))
+    for (a, b2) in twins:
+        if a == b2:
+            continue
+        for order in ((0, 1), (1, 0)):
+            hops = [a, b2]
+            toks = [f"R {hx(hops[0])}", "W", f"R {hx(hops[1])}", "W", f"P {hx(hops[order[0]])}", f"P {hx(hops[order[1]])}"]
+            cases.append((line(toks), toks, True))
     # adversarial peers (safety only): unsolicited, duplicated, wrong-id answers
     for k in range(300 if tier == "quick" else 20000):
         r = rng.fork(f"a{k}")
@@ -355,7 +372,7 @@ def check_C11(chk, tier, seed):
     chk.rule = ("EVERY interleaving of {send starts and registers, first request octet written, send returns, peer answers} for 1, 2 and 3 outstanding requests "
                 "(answers may overtake each other, arrive before the send call has returned or before the request is fully written), the reader running to "
                 f"quiescence after every event; {nrand} sampled interleavings for 4-5 requests with split answers, varying write-gate sizes and extreme ids; "
-                "adversarial peers (unsolicited / duplicated / foreign ids), futures dropped by the caller while pending or after completion, sends whose write fails "
+                "pairs of ids equal modulo 2^8 ... 2^31, modulo 1000 / 1009 / 65521, byte-swapped twins; adversarial peers (unsolicited / duplicated / foreign ids), futures dropped by the caller while pending or after completion, sends whose write fails "
                 "after the waiter was registered - for the safety half; answers delivered in two pieces separated by 1 ms .. 61 s of virtual time and idle periods up "
                 "to 10 min (anything timer-driven inside the client gets its chance to fire); one client object with 2-3 connections over its life (connect() again, "
                 "also failing for real against a closed port), requests outstanding on each, older connections cut while newer ones are busy; single-threaded runtime, paused time; non-trivial = >= 2 requests")
